@@ -76,7 +76,8 @@ Definition start_conn (s : sys) (pkt : res bytes) (new_sei : option N) : sys :=
     let s := match new_sei with
              | Some v => set_c s (with_sei_ts (c s) v (disc_ts (c s)))
              | None => s end in
-    let (s, ok) := write s b in
+    let ok := snd (write s b) in
+    let s := fst (write s b) in
     if ok then settle (set_cph s CConnecting) else fin s ConnErrSocketClosed
   end.
 
